@@ -151,6 +151,103 @@ def k2_only_on_request(which: int, k_assert: int, k_set1: int, f1: bool, k_set2:
     return True
 
 
+KINDS4 = [None, 'csv', 'graph', 'parquet']
+
+
+class _DF:
+    """stands in for a DataFrame: content token; to_parquet writes through the fake filesystem"""
+    def __init__(self, fs, content):
+        self.fs = fs
+        self.content = content
+
+    def to_parquet(self, path, **kw):
+        with self.fs.open(path, 'w') as f:
+            f.write('PARQUET:' + self.content)
+
+
+def k2_dataframe(k_assert: int, k_set1: int, f1: bool, k_set2: int, f2: bool, same: bool, again: bool,
+                 ref_exists: bool) -> bool:
+    """
+    pre: 0 <= k_assert < 4 and -1 <= k_set1 < 4 and -1 <= k_set2 < 4
+    post: __return__
+    """
+    import tdda.referencetest.checkpandas as cpm
+    k_assert = _c(k_assert, 4)
+    k_set1, k_set2 = _c(k_set1 + 1, 5) - 1, _c(k_set2 + 1, 5) - 1
+    ref = '/ref/r.' + P['ext']
+    prefix = 'PARQUET:' if P['ext'] == 'parquet' else 'CSV:'
+    files = {ref: prefix + 'old'} if ref_exists else {}
+    fs, r, fails = _mk(files)
+    new = 'old' if same else 'new'
+    df = _DF(fs, new)
+
+    class FakePD:
+        @staticmethod
+        def read_parquet(path, **kw):
+            with fs.open(path) as f:
+                return _DF(fs, f.read()[len('PARQUET:'):])
+    saved = (cpm.pd, cpm.default_csv_writer, cpm.PandasComparison.load_csv, ReferenceTest.assertDataFramesEqual)
+    cpm.pd = FakePD
+
+    def csv_writer(d, path, **kw):
+        with fs.open(path, 'w') as f:
+            f.write('CSV:' + d.content)
+
+    def load_csv(self, path, loader=None, **kw):
+        with fs.open(path) as f:
+            return _DF(fs, f.read()[len('CSV:'):])
+
+    def frames_equal(self, a, b, **kw):
+        self.assert_fn(a.content == b.content, 'frames differ')
+    cpm.default_csv_writer = csv_writer
+    cpm.PandasComparison.load_csv = load_csv
+    ReferenceTest.assertDataFramesEqual = frames_equal
+    table = {}
+    verbose = ReferenceTest.verbose
+    import io
+    import contextlib
+    try:
+        with fakefs.patched(fs, rtm, cfm, bcm, cpm), contextlib.redirect_stdout(io.StringIO()):
+            r.pandas.verbose = False
+            r.pandas.tmp_dir = '/tmp/T'
+            if k_set1 >= 0:
+                ReferenceTest.set_regeneration(KINDS4[k_set1], f1)
+                table[KINDS4[k_set1]] = f1
+            kind = KINDS4[k_assert]
+            for rnd in range(2 if again else 1):
+                before = dict(fs.files)
+                nlog = len(fs.log)
+                nfails = len(fails)
+                want_regen = table[kind] if kind in table else table.get(None, False)
+                missing = ref not in fs.files
+                raised = None
+                try:
+                    r.assertDataFrameCorrect(df, ref, kind=kind)
+                except FileNotFoundError as e:
+                    raised = e
+                touched = [p_ for op, p_ in fs.log[nlog:] if p_ == ref]
+                if want_regen:
+                    if raised is not None or fs.files.get(ref) != prefix + new or len(fails) != nfails:
+                        return False
+                else:
+                    # normal mode never creates, modifies or deletes the reference - also when it is missing
+                    if touched or fs.files.get(ref) != before.get(ref):
+                        return False
+                    if missing:
+                        if raised is None and len(fails) == nfails:
+                            return False
+                    elif raised is not None or (len(fails) > nfails) != (fs.files[ref] != prefix + new):
+                        return False
+                if rnd == 0 and k_set2 >= 0:
+                    ReferenceTest.set_regeneration(KINDS4[k_set2], f2)
+                    table[KINDS4[k_set2]] = f2
+    finally:
+        (cpm.pd, cpm.default_csv_writer, cpm.PandasComparison.load_csv, ReferenceTest.assertDataFramesEqual) = saved
+        ReferenceTest.regenerate = {}
+        ReferenceTest.verbose = verbose
+    return True
+
+
 def k3_regenerate_then_pass(content: str, which: int) -> bool:
     """
     pre: len(content) <= P['nc'] and 0 <= which < 3
@@ -268,6 +365,16 @@ def _obs():
                       'kind of the assertion and of two set_regeneration calls over {None, csv, graph, <no call>}, '
                       'flags symbolic; actual equal to / different from the reference; one or two assertions',
                       param={'which': which}, timeout=600, stubs=['fakefs']))
+    for ext in ('parquet', 'csv'):
+        obs.append(Ob('K2', 'k2_dataframe', 'assertDataFrameCorrect writes its reference exactly when the regeneration '
+                      'table says so for its kind - the label "parquet" being a kind like any other -, also when the '
+                      'setting changes between two assertions; in normal mode it never creates, modifies or deletes the '
+                      'reference, also when the reference is missing; a regenerated reference then passes',
+                      'reference r.%s present/absent; kind of the assertion and of two set_regeneration calls over '
+                      '{None, csv, graph, parquet, <no call>}, flags symbolic; equal/different frames; one or two '
+                      'assertions' % ext, param={'ext': ext}, timeout=600,
+                      stubs=['fakefs', 'DataFrame -> content token with to_parquet; pd.read_parquet / csv writer / '
+                                       'load_csv through the fake filesystem; assertDataFramesEqual -> token equality']))
     for ext in ('txt', 'pdf'):
         for nc, tier, to in ((2, 'quick', 400), (3, 'thorough', 3000)):
             obs.append(Ob('K3', 'k3_regenerate_then_pass', 'after a string / text file / list of text files assertion '
@@ -285,5 +392,5 @@ def _obs():
 OBLIGATIONS = _obs()
 ASSUMPTIONS = ['long tdda options occur at most once per command line; nothing but kind names follows --write',
                'ReferenceTest.regenerate is reset before each path (it is process-global class state)']
-OUTSIDE = ['unittest.main / pytest option parsing themselves', 'DataFrame/parquet references (real pandas/pyarrow I/O)',
+OUTSIDE = ['unittest.main / pytest option parsing themselves', 'real pandas/pyarrow I/O of DataFrame references (doubled)',
            'locales other than UTF-8']
